@@ -135,7 +135,7 @@ func siteDesc(c *Ctx, s EffectSite) string {
 func rulesC01(c *Ctx) {
 	R := c.R
 	R.Rule("R1", "signing (swap) and paying/settling (melt) are cut by: inputs not spent, not pending, no duplicates, read errors not swallowed, Ys derived from the inputs", 14)
-	R.Rule("R3", "swap returns success only after the inputs were inserted into the spent table", 1)
+	R.Rule("R3", "swap returns success, and stores the output signatures, only after the inputs were inserted into the spent table", 2)
 	R.Rule("R4", "melt pays/settles only after LOCK(inputs, quote) succeeded and the stored quote state was neither PAID nor PENDING", 9)
 	R.Rule("R5", "melt op / poll: inputs are marked spent only behind success facts, released only behind definitive-failure facts; census of every unlock/mark-spent/quote-write site", 30)
 	R.Rule("R6", "spent/pending tables: y PRIMARY KEY, secret UNIQUE; plain INSERT for every input in one transaction with rollback and commit", 14)
@@ -201,6 +201,13 @@ func rulesC01(c *Ctx) {
 			ok, why := o.Requires(r, cd)
 			R.Check("R3", c.P.FuncKey(swap), "success return <= MARK_SPENT(inputs)", c.P.InstrPos(r), ok,
 				"swap op returns success only after the spent-table insert of "+inputs+" succeeded", why)
+		}
+		// the output signatures become durable (restorable through NUT-09) only after the insert that is the
+		// last line of defence against a duplicate secret succeeded: a refused swap leaves nothing to restore
+		for _, s := range c.roleSites(swap, roleSaveSigs) {
+			ok, why := c.RequireAt(s.Instr, cd)
+			R.Check("R3", c.P.FuncKey(swap), siteDesc(c, s)+" <= MARK_SPENT(inputs)", c.P.InstrPos(s.Instr), ok,
+				"swap op stores the output signatures only after the spent-table insert of "+inputs+" succeeded (a swap refused by the unique key leaves no restorable signatures)", why)
 		}
 	}
 
